@@ -6,9 +6,13 @@
 (* warm the cache with non-prefix subsets of the files).                                   *)
 EXTENDS DbDigest
 
-CONSTANTS n1, n2, MaxSteps
+CONSTANTS n1, n2, MaxSteps, Mode
 
-Plain(imm) == [imm |-> imm, other |-> {}, bad |-> FALSE, decoy |-> "none", entry |-> "db"]
+NoNonReg   == [n \in {} |-> [k |-> "dir", cid |-> -1]]
+Plain(imm) == [imm |-> imm, nonreg |-> NoNonReg, other |-> {}, bad |-> FALSE, decoy |-> "none", entry |-> "db"]
+(* under the name of file n: a directory, a link to nothing, a link to a file of the same / another content *)
+NonRegKinds(d, n) == {[k |-> "dir", cid |-> -1], [k |-> "dangling", cid |-> -1],
+                      [k |-> "link", cid |-> d.imm[n]], [k |-> "link", cid |-> 1 - d.imm[n]]}
 
 Restrict(f, S) == [x \in S |-> f[x]]
 Extend(f, x, v) == [y \in DOMAIN f \cup {x} |-> IF y = x THEN v ELSE f[y]]
@@ -20,24 +24,55 @@ Variants(d) ==
     \cup {[d EXCEPT !.decoy = x] : x \in {"first", "after"}}
     \cup {[d EXCEPT !.entry = "immdir"], [d EXCEPT !.entry = "immdir", !.decoy = "first"]}
     \cup {[d EXCEPT !.imm = Restrict(d.imm, DOMAIN d.imm \ {n})] : n \in DOMAIN d.imm}
+    \cup UNION {{[d EXCEPT !.imm = Restrict(d.imm, DOMAIN d.imm \ {n}), !.nonreg = (n :> e)] :
+                    e \in NonRegKinds(d, n)} : n \in {m \in DOMAIN d.imm : m.ext = "chunk"}}
     \cup {[d EXCEPT !.imm[n] = c] : n \in DOMAIN d.imm, c \in Cids}
     \cup {[d EXCEPT !.imm = Extend(d.imm, n, c)] : n \in ImmNames \ DOMAIN d.imm, c \in {1}}
 
+(* Mode "layouts": the second node's disk is the first one's or one atomic change away; no  *)
+(*                 file changes while the nodes run.                                         *)
+(* Mode "live"   : one node; between its computations files change on disk (a byte, another  *)
+(*                 file's content, a file removed / added within or beyond the beacon) and   *)
+(*                 the digester objects may be restarted; a second node with a fresh,        *)
+(*                 cache-less digester computes over the disk as the first one left it.      *)
 Init ==
     /\ \E last \in 0..MaxNum : \E imm \in [Trios(0, last) -> Cids] :
-          \E v \in Variants(Plain(imm)) : disk = (n1 :> Plain(imm)) @@ (n2 :> v)
+          \E v \in (IF Mode = "layouts" THEN Variants(Plain(imm)) ELSE {Plain(imm)}) :
+             disk = (n1 :> Plain(imm)) @@ (n2 :> v)
     /\ cache = [n \in Nodes |-> <<>>]
+    /\ inst = [n \in Nodes |-> <<>>]
+    /\ tainted = [n \in Nodes |-> {}]
     /\ results = {}
     /\ steps = 0
 
+Computes(node) ==
+    \E c \in BOOLEAN :
+        \/ \E b \in Nums : Compute(node, b, c)
+        \/ \E lo \in Nums : \E hi \in lo..(MaxNum + 1) : ComputeRange(node, lo, hi, c)
+
+(* "live": n2 mirrors n1's disk at the end and computes once, cold and without cache *)
+Mirror ==
+    /\ disk' = [disk EXCEPT ![n2] = disk[n1]]
+    /\ steps' = steps + 1
+    /\ UNCHANGED <<cache, inst, tainted, results>>
+
 Next == /\ steps < MaxSteps
-        /\ \E node \in Nodes, c \in BOOLEAN :
-              \/ \E b \in Nums : Compute(node, b, c)
-              \/ \E lo \in Nums : \E hi \in lo..(MaxNum + 1) : ComputeRange(node, lo, hi, c)
+        /\ IF Mode = "layouts"
+           THEN \/ Computes(n1)                       \* any cache history on the first node
+                \/ \E b \in Nums : Compute(n2, b, FALSE)  \* the second one: cold, without cache
+                \/ \E lo \in Nums : \E hi \in lo..(MaxNum + 1) : ComputeRange(n2, lo, hi, FALSE)
+           ELSE \/ Computes(n1)
+                \/ \E n \in ImmNames, c \in Cids \cup {-1} : Perturb(n1, n, c)
+                \/ Restart(n1)
+                \/ Mirror
+                \/ \E b \in Nums : Compute(n2, b, FALSE)
 
 Spec == Init /\ [][Next]_vars
 
 (* vacuity guards (each must be VIOLATED when used as an invariant) *)
 NoTwoOkSameCovered == ~\E r, s \in Judged : r # s /\ CoveredOf(r) = CoveredOf(s)
 NoDecoyUsed        == \A r \in results : ~(r.ok /\ FoundDir(disk[r.node]) = "decoy")
+NoStaleResult      == \A r \in results : ~r.stale
+NoChangeSeen       == ~\E r, s \in Judged : r.node = s.node /\ ~r.cache /\ ~s.cache /\ r.op = s.op
+                                            /\ r.lo = s.lo /\ r.beacon = s.beacon /\ r.root # s.root
 =============================================================================
